@@ -642,12 +642,13 @@ class DCM(np.ndarray):
                [-0.29531805, -0.5473806 ,  0.        ]])
 
         """
-        trace_R = self.A.trace()
-        if np.isclose(trace_R, 3.0):
+        S = self.A.T - self.A
+        sin_theta = 0.5*np.sqrt(S[2, 1]**2 + S[0, 2]**2 + S[1, 0]**2)
+        if sin_theta == 0.0:
             return np.zeros((3, 3))
-        theta = np.arccos((self.A.trace()-1)/2)
-        nom = theta * (self.A.T - self.A)
-        denom = 2*np.sin(theta)
+        theta = np.arctan2(sin_theta, (self.A.trace()-1)/2)
+        nom = theta * S
+        denom = 2*sin_theta
         logR = nom / denom
         return logR
 
